@@ -34,7 +34,7 @@ func hashKeyed(kind string) bool {
 }
 
 // engineStoreKinds are the store configurations the evaluation checks run on.
-var engineStoreKinds = []string{"simple", "indexed", "multi", "multiarray", "concurrent-simple", "concurrent-multiarray", "merged", "teeing", "merged-file", "merged-file-snapshot"}
+var engineStoreKinds = []string{"simple", "indexed", "multi", "multiarray", "concurrent-simple", "concurrent-multiarray", "merged", "teeing", "merged-file", "merged-file-snapshot", "temporal-adapter"}
 
 // newEngineStore builds a writable store of the kind, pre-loaded with the base
 // facts. For merged/teeing half of the base facts live in the read-only layer.
@@ -82,6 +82,13 @@ func newEngineStore(kind string, base []ast.Atom) factstore.FactStore {
 			panic("merged-file: open: " + err.Error())
 		}
 		return factstore.NewMergedStore([]factstore.ReadOnlyFactStore{ro}, factstore.NewMultiIndexedArrayInMemoryStore())
+	case "temporal-adapter":
+		// a temporal store seen through the adapter that lets the engine write eternal facts to it
+		s := factstore.NewTemporalFactStoreAdapter(factstore.NewTemporalStore())
+		for _, a := range base {
+			s.Add(a)
+		}
+		return s
 	case "teeing":
 		b := factstore.NewMultiIndexedArrayInMemoryStore()
 		for i, a := range base {
